@@ -293,13 +293,14 @@ func runCase(w *tr.Writer, seed uint64, idx int, focus string) {
 	vunix.SetHooks(rec)
 	defer vunix.SetHooks(nil)
 
-	var addr, dialNet, dialAddr string
+	var addr, dialNet, dialAddr, unixPath string
 	switch cfg.proto {
 	case "unix":
 		pcount++
 		p := fmt.Sprintf("/var/tmp/vloop-%d-%d.sock", os.Getpid(), pcount)
 		os.Remove(p)
 		defer os.Remove(p)
+		unixPath = p
 		addr, dialNet, dialAddr = "unix://"+p, "unix", p
 	case "udp":
 		port := freePort()
@@ -1046,6 +1047,12 @@ func runCase(w *tr.Writer, seed uint64, idx int, focus string) {
 		_ = ci.c.AsyncWrite([]byte("late"), nil)
 	}
 	finalOracles(rec, h, cfg, peers)
+	if unixPath != "" && !cfg.client {
+		// C07: the file of a Unix-domain listener is removed by the time Run returns
+		if _, err := os.Lstat(unixPath); err == nil {
+			rec.Fail("fd-leak", "unix-socket-file", "the listener's socket file still exists after Run returned")
+		}
+	}
 	rec.mu.Lock()
 	for _, fd := range rec.userFds {
 		syscall.Close(fd)
